@@ -5,10 +5,24 @@ path condition, assumptions (carrier constraints), definedness conditions of par
 axioms of uninterpreted functions.  ``explore(fn)`` re-executes ``fn`` depth-first over decision
 prefixes (the technique CrossHair uses), asking z3 for the feasibility of each side of a branch.
 """
+import os
 import time
 import z3
 
 Z3_TIMEOUT_MS = 20000
+# Deterministic budgets: a query's budget is a z3 resource limit proportional to its nominal timeout, so the verdict
+# (decided / inconclusive) does not depend on machine load; the wall-clock timeout is only a backstop.
+RLIMIT_PER_MS = int(os.environ.get("VERIF_RLIMIT_PER_MS", "0"))       # 0 = wall-clock budgets (default until calibrated)
+WALL_BACKSTOP = 5
+
+
+def _budget(s, timeout_ms):
+    t = timeout_ms or Z3_TIMEOUT_MS
+    if RLIMIT_PER_MS > 0:
+        s.set("rlimit", int(t) * RLIMIT_PER_MS)
+        s.set("timeout", int(t) * WALL_BACKSTOP)
+    else:
+        s.set("timeout", int(t))
 
 
 class Unsupported(Exception):
@@ -117,7 +131,7 @@ def _check(solver):
 
 def feasible(conds, timeout_ms=None):
     s = z3.Solver()
-    s.set("timeout", timeout_ms or Z3_TIMEOUT_MS)
+    _budget(s, timeout_ms)
     s.add(*conds)
     r = _check(s)
     return r  # sat / unsat / unknown
@@ -221,7 +235,7 @@ def _cross_check(solver, verdict):
 def check_valid(hyps, goal, timeout_ms=None):
     """Is `hyps |= goal` ?  returns (verdict, model|None, seconds); verdict in {'unsat','sat','unknown'} of hyps & !goal"""
     s = z3.Solver()
-    s.set("timeout", timeout_ms or Z3_TIMEOUT_MS)
+    _budget(s, timeout_ms)
     s.add(*hyps)
     s.add(z3.Not(goal))
     t0 = time.time()
@@ -241,7 +255,7 @@ def check_valid(hyps, goal, timeout_ms=None):
 
 def check_sat(conds, timeout_ms=None):
     s = z3.Solver()
-    s.set("timeout", timeout_ms or Z3_TIMEOUT_MS)
+    _budget(s, timeout_ms)
     s.add(*conds)
     r = _check(s)
     if r == z3.sat:
